@@ -146,6 +146,11 @@ func (c RawConfiguration) handleCorrectableCall(ctx context.Context, corr *Corre
 	}
 
 	for {
+		if (state.data.ServerStream && len(errs) == state.expectedReplies) ||
+			(!state.data.ServerStream && len(errs)+len(replies) == state.expectedReplies) {
+			corr.set(resp, clevel, QuorumCallError{cause: Incomplete, errors: errs, replies: len(replies)}, true)
+			return
+		}
 		select {
 		case r := <-state.replyChan:
 			if r.err != nil {
@@ -165,11 +170,6 @@ func (c RawConfiguration) handleCorrectableCall(ctx context.Context, corr *Corre
 			}
 		case <-ctx.Done():
 			corr.set(resp, clevel, QuorumCallError{cause: ctx.Err(), errors: errs, replies: len(replies)}, true)
-			return
-		}
-		if (state.data.ServerStream && len(errs) == state.expectedReplies) ||
-			(!state.data.ServerStream && len(errs)+len(replies) == state.expectedReplies) {
-			corr.set(resp, clevel, QuorumCallError{cause: Incomplete, errors: errs, replies: len(replies)}, true)
 			return
 		}
 	}
